@@ -261,15 +261,17 @@ struct ConnectSpec {
     login: Option<(String, String)>,
     will: Option<(String, Vec<u8>, u8, bool)>,
     topic_alias_max: Option<u16>,
+    receive_maximum: Option<u16>,
 }
 
 fn connect_bytes(v5: bool, c: &ConnectSpec) -> Vec<u8> {
     let mut b = BytesMut::new();
     if v5 {
         let mut props = None;
-        if c.topic_alias_max.is_some() {
+        if c.topic_alias_max.is_some() || c.receive_maximum.is_some() {
             let mut p = c5::ConnectProperties::new();
             p.topic_alias_max = c.topic_alias_max;
+            p.receive_maximum = c.receive_maximum;
             props = Some(p);
         }
         let connect = c5::Connect {
@@ -1117,6 +1119,9 @@ fn run_c20(ch: &mut Choices, rep: &mut RunReport) -> Outcome {
             clean: true,
             keep_alive: 60,
             topic_alias_max: sub_alias_max,
+            // (other CONNECT properties must not be mistaken for it; decided without
+            // a further choice)
+            receive_maximum: if sub_v5 && n_msgs % 2 == 0 { Some(20) } else { None },
             ..Default::default()
         };
         if !connect_ok(&mut s, &sspec).await {
@@ -1359,6 +1364,15 @@ fn run_c20(ch: &mut Choices, rep: &mut RunReport) -> Outcome {
                 // preserved towards MQTT 5 (minus the publisher's alias, plus the
                 // subscriber's own alias / subscription identifier)
                 let mut g = gprops.clone().unwrap_or_default();
+                if let Some(a) = g.topic_alias {
+                    if sub_alias_max.map_or(true, |m| a == 0 || a > m) {
+                        sh.viol(
+                            "topic_alias_beyond_subscriber_limit",
+                            format!("message {i} reached the v5 subscriber with topic alias {a}; the subscriber announced topic alias maximum {sub_alias_max:?}"),
+                        );
+                        return;
+                    }
+                }
                 g.topic_alias = None;
                 let ids = std::mem::take(&mut g.subscription_identifiers);
                 if let Some(id) = sub_id {
